@@ -63,6 +63,7 @@ inductive BInstr where
   | assign                               -- AssignInstr
   | popScopeXfer                         -- PopScopeTransferToDataStackInstr
   | prepareCall (n : Nat)                -- PrepareCallInstr{sym, nargs}
+  | tailGuard (off : Int)                -- TailGuardInstr{sym, skip} (fix C09-02)
 deriving DecidableEq, Repr, Inhabited
 
 /-- The Go type an instruction stands for. -/
@@ -80,6 +81,7 @@ def BInstr.goType : BInstr → String
   | .popUntilMark _ => "PopUntilStackmarkInstr" | .clearMark _ => "ClearStackmarkInstr"
   | .debug => "DebugInstr" | .createClosure => "CreateClosureInstr" | .assign => "AssignInstr"
   | .popScopeXfer => "PopScopeTransferToDataStackInstr" | .prepareCall _ => "PrepareCallInstr"
+  | .tailGuard _ => "TailGuardInstr"
 
 /-- One representative per constructor (the checker's enumeration of the instruction set). -/
 def allKinds : List BInstr :=
@@ -87,7 +89,7 @@ def allKinds : List BInstr :=
    .popStackPutEnv, .update, .call 0, .callExpr 0, .dispatch 0, .ret false, .addScope,
    .addFuncScope, .removeScope, .explode, .squash, .bindlist 0, .vectorize, .hashize 0, .label,
    .brk 0 0 0, .cont 0 0 0, .loopStart 0, .pushMark 0, .popUntilMark 0, .clearMark 0, .debug,
-   .createClosure, .assign, .popScopeXfer, .prepareCall 0]
+   .createClosure, .assign, .popScopeXfer, .prepareCall 0, .tailGuard 0]
 
 def coveredGoTypes : List String := allKinds.map BInstr.goType
 
@@ -108,6 +110,7 @@ inductive Eff where
   | exitLoop (loop : Nat) (off : Int) (pops : Nat)
   | xfer                         -- pop one scope, push it as a value
   | prepareCall (n : Nat)
+  | guard (off : Int)            -- TailGuardInstr: nothing popped or pushed; pc+1 or pc+off
 deriving DecidableEq, Repr
 
 /-- The effect of each instruction, read off its `Execute` method (zygo/vm.go) and, for the
@@ -152,6 +155,7 @@ def eff : BInstr → Eff
   | .assign => .simple 2 1       -- pops target and value, leaves the assigned value (after fix C04-03)
   | .popScopeXfer => .xfer
   | .prepareCall n => .prepareCall n
+  | .tailGuard off => .guard off
 
 /-! ## Functions -/
 
@@ -358,6 +362,10 @@ def astep (f : Fn) (pc : Nat) (i : BInstr) (a : AState) : Except String (List (N
         | none => .error "tail call: operands missing"
       else .error "tail call with too few arguments"
     else .ok [(pc + 1, a)]
+  | .guard off =>
+    match target pc off len with
+    | some t => .ok [(pc + 1, a), (t, a)]
+    | none => .error "tail guard out of bounds"
 
 /-! ## The checker proper: local verification of an annotation -/
 
